@@ -118,7 +118,11 @@ def classify_one(s, tx, raft):
     # hid the folder and a concurrent writer put another key into it; or the folder was visible through a key a
     # concurrent writer deleted while storage still holds the key the transaction deletes)
     owndel = s.get("owndel", [])
-    if (added or gone) and all(x.endswith("/") and any(k.startswith(prefix + x) for k in owndel) for x in added + gone):
+    # (a LIMITED page: when a folder leaves the page, the entries behind it move up into it — those are not differences
+    # of their own; seen in the thorough sweep, seed 3: observed [a/], at the commit point [b/], limit 1)
+    refill = [x for x in added if limit > 0 and obs and gone and x > max(obs)]
+    diff = [x for x in added if x not in refill] + gone
+    if diff and all(x.endswith("/") and any(k.startswith(prefix + x) for k in owndel) for x in diff):
         return "F24:raft-list-own-delete-hides-folder"
     return "stale-list-commit"
 
